@@ -28,11 +28,31 @@ For ANY mix of threads (pushers, snapshot readers, clearers, is_empty callers), 
   live chain and every running clear's remaining chain are disjoint contiguous index ranges.
 So the ONLY way the full statement fails for the code is loss (a completed push that is neither delivered nor
 visible), and `k1_straggler_lost` shows that this does happen.
+
+The loss is confined to ONE pattern, K1 = "a pusher's slot claim lands on a block that a clear has already detached"
+(`stragglerClaims` counts these steps along a schedule; ghost counter, the step machine is untouched):
+* `conservation_except_K1` — for ANY programs (pushers, snapshot readers, is_empty callers, clearers; any number, any
+  block size) and EVERY schedule without a K1 step, at quiescence every value was delivered to clear callbacks plus is
+  visible to a snapshot EXACTLY as often as it was pushed (`…_perm`: delivered ++ visible is a permutation of the
+  pushed values); `conservation_without_clears` is the special case "no clear in the programs" (no K1 step possible);
+* `accounting_except_K1` — the same at EVERY moment of such a run: each completed push is in exactly one of: handed
+  to a finished clear, handed to a running clear, in a block reachable from the tail, in a detached block a running
+  clear has not read yet (`completed_pushes_are_published`: published slots = completed pushes);
+* `K1_is_claim_on_unreachable_block` / `K1_has_detach_between` / `pusher_claims_on_the_tail_it_saw` — K1 in terms of
+  the state alone (the claimed block is not reachable from the tail) and of the trace (a clear's successful detach CAS
+  lies between the pusher's tail load / installing CAS and its claim: the signature of K-C05-K1);
+* `k1_straggler_is_K1` — the witness of `k1_straggler_lost` has exactly one K1 step, so the hypothesis is needed;
+* `snapshot_complete_any` — ANY programs (clears included), every schedule: a `data_with` returns every value that was
+  published and reachable from the tail when it loaded the tail; `is_empty_complete_any` — same scope: an `is_empty`
+  answers `false` if a published value was reachable from the tail when it loaded the tail.
 -/
 import MetricsVerif.Proofs.Bucket
 import MetricsVerif.Proofs.BucketAll
 import MetricsVerif.Proofs.BucketClear
 import MetricsVerif.Proofs.BucketSnap
+import MetricsVerif.Proofs.BucketCons
+import MetricsVerif.Proofs.BucketSnapLive
+import MetricsVerif.Proofs.BucketEmptyLive
 import MetricsVerif.Proofs.BucketEmpty
 import MetricsVerif.Proofs.MsgPass
 import MetricsVerif.Proofs.SrcShapes
@@ -187,6 +207,142 @@ theorem k1_straggler_lost :
     ∧ delivered s = [1]                          -- the clear got only the first
     ∧ visible s = [] := by decide                -- and the second is not visible either
 
+/-! ### conservation for ANY mix of threads outside the K1 pattern
+
+K1: the step a thread is about to take is a `pClaim blk` that really claims a slot (`write < B`) while block `blk`
+is not `live` in the ghost ownership of `Proofs/BucketClear.lean`, i.e. a clear's detach CAS has taken it off the
+tail since the pusher loaded (or installed) it: `Bucket.k1Step`.  `stragglerClaims` counts these steps. -/
+
+/-- number of K1 steps (slot claims landing on an already detached block) in the run of `sched` -/
+def stragglerClaims (B : Nat) (progs : List (List Call)) (sched : List Nat) : Nat :=
+  k1Count (init B progs) own0 sched
+
+/-- at quiescence every thread has run its whole program: all calls (in particular all pushes) have completed -/
+theorem quiescent_all_calls_finished (B : Nat) (progs : List (List Call)) (sched : List Nat)
+    (hq : quiescent (run (init B progs) sched) = true) :
+    ∀ t ∈ (run (init B progs) sched).threads, t.pc = .done ∧ t.calls = [] :=
+  calls_nil_of_quiescent _ (donenil_run sched _ (init_donenil B progs)) hq
+
+/-- **conservation outside K1** (count form): for ANY programs — pushers, snapshot readers, is_empty callers and
+    clearers, any number of threads and calls, any block size — and EVERY schedule in which no slot claim lands on an
+    already detached block, once all calls have finished every value `v` satisfies
+    (pushes of `v`) = (times `v` was handed to a clear callback, over all clears) + (times a snapshot taken now sees `v`).
+    Nothing lost, nothing duplicated, nothing invented. -/
+theorem conservation_except_K1 (B : Nat) (progs : List (List Call)) (sched : List Nat)
+    (hk : stragglerClaims B progs sched = 0) (hq : quiescent (run (init B progs) sched) = true) (v : Nat) :
+    progs.flatten.count (.push v)
+      = (delivered (run (init B progs) sched)).count v + (visible (run (init B progs) sched)).count v :=
+  (conserved_of_noK1 B progs sched hk hq v).symm
+
+/-- **conservation outside K1**: what the clears were handed, together with what is still visible, is a permutation
+    of the pushed values -/
+theorem conservation_except_K1_perm (B : Nat) (progs : List (List Call)) (sched : List Nat)
+    (hk : stragglerClaims B progs sched = 0) (hq : quiescent (run (init B progs) sched) = true) :
+    (delivered (run (init B progs) sched) ++ visible (run (init B progs) sched)).Perm
+      (progs.flatten.filterMap pushVal) := by
+  rw [List.perm_iff_count]
+  intro v
+  rw [List.count_append, count_pushVal, conservation_except_K1 B progs sched hk hq v]
+
+/-- programs in which no thread ever calls `clear` / `clear_with` -/
+def NoClear (progs : List (List Call)) : Prop := ∀ p ∈ progs, Call.clear ∉ p
+
+/-- programs without clears cannot take a K1 step, whatever the schedule -/
+theorem no_K1_without_clears (B : Nat) (progs : List (List Call)) (hnc : NoClear progs) (sched : List Nat) :
+    stragglerClaims B progs sched = 0 := k1Count_noclear sched _ (init_cinv B progs hnc)
+
+/-- **conservation without clears**: pushers racing snapshot readers and is_empty callers (any number, any schedule):
+    once all calls have finished a snapshot returns exactly the pushed values (generalises `pushers_conserved`) -/
+theorem conservation_without_clears (B : Nat) (progs : List (List Call)) (hnc : NoClear progs) (sched : List Nat)
+    (hq : quiescent (run (init B progs) sched) = true) :
+    (visible (run (init B progs) sched)).Perm (progs.flatten.filterMap pushVal) := by
+  rw [List.perm_iff_count]
+  intro v
+  have h1 := conservation_except_K1 B progs sched (no_K1_without_clears B progs hnc sched) hq v
+  have h2 := never_duplicates B progs sched v
+  have h3 := delivered_zero_noclear B progs hnc sched v
+  rw [count_pushVal]; omega
+
+/-- **what K1 is, in terms of the state alone**: in any reachable state, thread `tid`'s next step is a K1 step iff the
+    thread is parked at `blk.push.claim` for a block that still has a free slot (so the `fetch_add` claims one) and that
+    is NOT reachable from the tail through `next` any more -/
+theorem K1_is_claim_on_unreachable_block (B : Nat) (progs : List (List Call)) (sched : List Nat) (tid : Nat) :
+    k1Step (run (init B progs) sched) (grun (init B progs) own0 sched).2 tid = true ↔
+      ∃ t blk r, (run (init B progs) sched).threads[tid]? = some t ∧ t.pc = .pClaim blk r
+        ∧ (getBlock (run (init B progs) sched) blk).write < (run (init B progs) sched).B
+        ∧ onChain (run (init B progs) sched) blk = false :=
+  k1Step_iff (ownership_invariant B progs sched) tid
+
+/-- **what K1 is, in terms of the trace** (the signature of K-C05-K1): a pusher obtains the block of its claim only
+    in a state whose tail is that block (`pusher_claims_on_the_tail_it_saw`); if later (after `mid`) its claim is a K1
+    step, then a clear's successful detach CAS lies in `mid`, between the tail load / installing CAS and the claim -/
+theorem K1_has_detach_between (B : Nat) (progs : List (List Call)) (pre mid : List Nat) (tid blk : Nat) (t : Thread)
+    (r : Bool) (htail : (run (init B progs) pre).tail = some blk)
+    (hg : (run (init B progs) (pre ++ mid)).threads[tid]? = some t) (hp : t.pc = .pClaim blk r)
+    (hk : k1Step (run (init B progs) (pre ++ mid)) (grun (init B progs) own0 (pre ++ mid)).2 tid = true) :
+    ∃ m1 c m2, mid = m1 ++ c :: m2 ∧ detachStep (run (init B progs) (pre ++ m1)) c :=
+  k1_needs_detach B progs pre mid tid blk t r htail hg hp hk
+
+/-- a thread arrives at `blk.push.claim` for block `blk` only by a step after which the tail IS `blk`: the tail load,
+    the first-block CAS (won or lost) or the won hand-over CAS -/
+theorem pusher_claims_on_the_tail_it_saw (s : Sys) (t : Thread) (blk : Nat) (r : Bool)
+    (h : (stepThread s t).2.pc = .pClaim blk r) : (stepThread s t).1.tail = some blk :=
+  claim_target_is_tail s t blk r h
+
+/-- the number of published slots holding `v` IS the number of completed pushes of `v`: at every moment of any run,
+    pushes of `v` in the programs = published slots + slots between slot write and publish + pushes that have not
+    claimed a slot yet -/
+theorem completed_pushes_are_published (B : Nat) (progs : List (List Call)) (sched : List Nat) (v : Nat) :
+    pubCount v (run (init B progs) sched) + inFlight v (run (init B progs) sched)
+      + todoSum v (run (init B progs) sched) = progs.flatten.count (.push v) := by
+  have h1 := pubCount_add_inFlight v (run (init B progs) sched)
+  have h2 := all_threads_claimed_plus_todo B progs sched v
+  omega
+
+/-- **conservation outside K1, at EVERY moment** (not only at quiescence): in a run of ANY programs without a K1 step,
+    every completed push of `v` (published slot) is accounted for exactly once — it was handed to the callback of a
+    finished clear (`delivered`), or of a clear that is still walking its chain (`inRunningClears`), or it sits in a
+    block reachable from the tail (where every later snapshot / is_empty finds it once the slots below it are
+    published: `snapshot_complete`, `data_only_grows`), or in a detached block that a running clear has not read yet
+    (and will read only after it saw the block quiesced). Nothing else was ever handed to a clear. -/
+theorem accounting_except_K1 (B : Nat) (progs : List (List Call)) (sched : List Nat)
+    (hk : stragglerClaims B progs sched = 0) (v : Nat) :
+    pubCount v (run (init B progs) sched)
+      = (delivered (run (init B progs) sched)).count v + (inRunningClears (run (init B progs) sched)).count v
+        + pubIn v isLive (grun (init B progs) own0 sched).2 (run (init B progs) sched)
+        + pubIn v isDet (grun (init B progs) own0 sched).2 (run (init B progs) sched) := by
+  rw [accounted_of_noK1 B progs sched hk v, Dsum_split]
+
+/-- non-vacuity for `accounting_except_K1`: the run of the example below, stopped while clear #2 has read block 1
+    (value 4) and waits on block 0 (value 1 published, value 2 in flight) -/
+example :
+    let progs : List (List Call) := [[.push 1, .push 2, .push 3], [.push 4], [.clear, .clear]]
+    let sched := [0,0,0,0,0, 0,0, 2,2, 1,1,1,1,1, 2, 2,2,2,2, 1, 2,2,2,2]
+    let s := run (init 2 progs) sched
+    let own := (grun (init 2 progs) own0 sched).2
+    stragglerClaims 2 progs sched = 0 ∧ quiescent s = false
+    ∧ delivered s = [] ∧ inRunningClears s = [4] ∧ pubCount 4 s = 1
+    ∧ pubCount 1 s = 1 ∧ pubIn 1 isDet own s = 1 ∧ pubIn 1 isLive own s = 0
+    ∧ pubCount 2 s = 0 ∧ inFlight 2 s = 1 := by decide
+
+/-- the hypothesis is needed, and the predicate flags the known finding: the schedule of `k1_straggler_lost` contains
+    exactly one K1 step (pusher 1's claim, taken after the clear's detach CAS) -/
+theorem k1_straggler_is_K1 :
+    stragglerClaims 2 [[.push 1], [.push 2], [.clear]] [0, 1, 2, 0, 0, 0, 0, 1, 2, 2, 2, 2, 2, 1, 1] = 1
+    ∧ stragglerClaims 2 [[.push 1], [.push 2], [.clear]] [0, 1, 2, 0, 0, 0, 0, 1, 2, 2, 2, 2, 2] = 0 := by decide
+
+/-- non-vacuity for `conservation_except_K1` (block size 2): pusher 1 hands block 0 over to block 1 while clear #1 sits
+    between its tail load and its CAS (the CAS fails, the clear returns nothing); clear #2 detaches the two-block chain
+    while BOTH pushers are between slot write and publish, has to wait on each block, and delivers all three values;
+    the push that started after the detach lands in a fresh block and stays visible.  No K1 step. -/
+example :
+    let progs : List (List Call) := [[.push 1, .push 2, .push 3], [.push 4], [.clear, .clear]]
+    let sched := [0,0,0,0,0, 0,0, 2,2, 1,1,1,1,1, 2, 2,2,2,2, 1, 2,2,2,2, 0, 2,2,2, 0,0,0,0]
+    let s := run (init 2 progs) sched
+    stragglerClaims 2 progs sched = 0 ∧ quiescent s = true
+    ∧ (s.threads[2]?.map (·.results)) = some [.cleared [], .cleared [4, 1, 2]]
+    ∧ delivered s = [4, 1, 2] ∧ visible s = [3] ∧ s.blocks.length = 3 := by decide
+
 /-! ### non-vacuity: three pushers racing over a block hand-over (block size 2) -/
 
 example :
@@ -308,9 +464,6 @@ theorem wait_is_unbounded (s : Sys) (t : Thread) (blk : Nat) :
         (stepThread s t).1 = s ∧ (stepThread s t).2.pc = if (getBlock s blk).quiesced s.B then .cRead blk else .cWait blk) := by
   refine ⟨fun h => ?_, fun h => ?_⟩ <;> rcases h with h | h <;> simp [stepThread, h]
 
-/-- programs in which no thread ever calls `clear` / `clear_with` -/
-def NoClear (progs : List (List Call)) : Prop := ∀ p ∈ progs, Call.clear ∉ p
-
 /-- **snapshot completeness** (pushers, snapshot readers and is_empty callers; any number of threads and calls, any
     block size, EVERY schedule): take any moment `s1` at which thread `i` is about to start a `data_with` (it is at
     the call's first shared-memory step). Whatever happens afterwards (`s2`) — however long the reader has to wait
@@ -343,6 +496,35 @@ theorem snapshot_complete (B : Nat) (progs : List (List Call)) (hnc : NoClear pr
     simp only [List.cons.injEq, Res.snapshot.injEq] at h2
     obtain ⟨rfl, _⟩ := h2
     exact hv v
+
+/-- **snapshot completeness for ANY programs, clears included** (any number of threads and calls, any block size, EVERY
+    schedule, K1 steps or not): thread `i` executes the first shared-memory step (the tail load) of a `data_with` in the
+    state reached by `pre`. Whatever happens afterwards — hand-overs, clears detaching the chain under the reader,
+    stragglers, waits of any length — when that call has returned `vs`, every value whose publish step had run and that
+    sat in a block reachable from the tail at that moment (no clear had detached it) is in `vs`, with multiplicity.
+    Together with `accounting_except_K1` (outside K1 a completed push is reachable from the tail unless a clear took
+    it) this is the second sentence of the property for snapshots; what K1 breaks is only that a straggler's slot is
+    not reachable from the tail (`snapshot_incomplete_with_clear`). -/
+theorem snapshot_complete_any (B : Nat) (progs : List (List Call)) (pre rest : List Nat) (i : Nat) (t0 t1 : Thread)
+    (h0 : (run (init B progs) pre).threads[i]? = some t0) (hpc : t0.pc = .dLoadTail)
+    (h1 : (run (init B progs) (pre ++ i :: rest)).threads[i]? = some t1)
+    (vs : List Nat) (hres : t1.results = t0.results ++ [.snapshot vs]) (v : Nat) :
+    pubIn v isLive (grun (init B progs) own0 pre).2 (run (init B progs) pre) ≤ vs.count v :=
+  live_snapshot B progs pre rest i t0 t1 h0 hpc h1 vs hres v
+
+/-- non-vacuity for `snapshot_complete_any` (block size 2): the reader loads the tail while block 0 holds `1` published
+    and `2` in flight; a clear then detaches the chain under the reader and a later push goes to a fresh block; the
+    reader waits for the stalled writer and returns `[1, 2]` (it must contain the `1` that was published and reachable
+    when it loaded the tail) -/
+example :
+    let progs : List (List Call) := [[.push 1, .push 2, .push 3], [.data], [.clear]]
+    let pre := [0,0,0,0,0, 0,0, 1]
+    let rest := [2,2,2,2, 1,1, 0, 1,1,1, 2,2,2, 0,0,0,0]
+    ((run (init 2 progs) pre).threads[1]?.map (·.pc)) = some .dLoadTail
+    ∧ pubIn 1 isLive (grun (init 2 progs) own0 pre).2 (run (init 2 progs) pre) = 1
+    ∧ ((run (init 2 progs) (pre ++ 1 :: rest)).threads[1]?.map (·.results)) = some [.snapshot [1, 2]]
+    ∧ delivered (run (init 2 progs) (pre ++ 1 :: rest)) = [1, 2]
+    ∧ visible (run (init 2 progs) (pre ++ 1 :: rest)) = [3] := by decide
 
 /-- with a clear in the programs the statement is FALSE of the code (known finding K-C05-K1 again): the straggler's
     push has completed (its value is published) before the snapshot of thread 3 begins, no clear has taken it
@@ -399,6 +581,33 @@ theorem is_empty_complete (B : Nat) (progs : List (List Call)) (hnc : NoClear pr
     simp only [List.cons.injEq, Res.empty.injEq] at h2
     obtain ⟨rfl, _⟩ := h2
     exact he ⟨j, v, hj⟩
+
+/-- **is_empty completeness for ANY programs, clears included** (every schedule, any block size, K1 steps or not):
+    thread `i` executes the first shared-memory step (the tail load) of an `is_empty` in the state reached by `pre`; if
+    in that state some value is published in a block reachable from the tail (its push completed, no clear has detached
+    it), the call answers `false` — whatever happens between its two steps (hand-overs, clears, slots in flight below
+    the published one). What K1 breaks is only that a straggler's slot is not reachable from the tail
+    (`is_empty_incomplete_with_clear`). -/
+theorem is_empty_complete_any (B : Nat) (progs : List (List Call)) (pre rest : List Nat) (i : Nat) (t0 t1 : Thread)
+    (h0 : (run (init B progs) pre).threads[i]? = some t0) (hpc : t0.pc = .eLoadTail)
+    (h1 : (run (init B progs) (pre ++ i :: rest)).threads[i]? = some t1)
+    (e : Bool) (hres : t1.results = t0.results ++ [.empty e]) (v : Nat)
+    (hv : 1 ≤ pubIn v isLive (grun (init B progs) own0 pre).2 (run (init B progs) pre)) : e = false :=
+  live_is_empty B progs pre rest i t0 t1 h0 hpc h1 e hres v hv
+
+/-- non-vacuity for `is_empty_complete_any` (block size 1): `1` is published in block 0, block 1 (the tail) has been
+    installed by the hand-over but nothing is claimed in it yet; `is_empty` loads the tail, a clear detaches the chain
+    and delivers `1` before `is_empty` takes its second step: the answer is `false` (decided on the predecessor's claim
+    counter) -/
+example :
+    let progs : List (List Call) := [[.push 1, .push 2], [.isEmpty], [.clear]]
+    let pre := [0,0,0,0,0, 0,0,0, 1]
+    let rest := [2,2,2,2,2,2,2,2,2, 1]
+    ((run (init 1 progs) pre).threads[1]?.map (·.pc)) = some .eLoadTail
+    ∧ pubIn 1 isLive (grun (init 1 progs) own0 pre).2 (run (init 1 progs) pre) = 1
+    ∧ (run (init 1 progs) pre).tail = some 1
+    ∧ delivered (run (init 1 progs) (pre ++ 1 :: rest)) = [1]
+    ∧ ((run (init 1 progs) (pre ++ 1 :: rest)).threads[1]?.map (·.results)) = some [.empty false] := by decide
 
 /-- with a clear in the programs `is_empty` completeness is FALSE of the code as well (K-C05-K1): the straggler's
     value is published, no clear took it, and `is_empty` answers `true` -/
